@@ -319,7 +319,7 @@ func checkC11(c *Check) {
 					nslots++
 					bad := ""
 					for _, sv := range ev.Effective(slot) {
-						for _, s := range ClassifyDeep(p, hc.R, sv.Org) {
+						for _, s := range Classify(p, sv.Org) {
 							if w := fabricated(s, slot, allowedConst); w != "" {
 								bad = w
 							}
@@ -609,6 +609,32 @@ func dischargeBounds(p *Prog, r *Resolver, rx map[string]*RegexVar, in ssa.Instr
 					nsite++
 					nr := NewResolver(p).Bind(fn, ci)
 					mo := nr.Of(x.X)
+					// the slice may itself come out of a helper that runs the match
+					var argVal ssa.Value
+					if prm, isP := strip(x.X).(*ssa.Parameter); isP {
+						for pi, q := range fn.Params {
+							if q == prm && pi < len(ci.Common().Args) {
+								argVal = ci.Common().Args[pi]
+							}
+						}
+					}
+					if mo.K == "call" && mo.Name != "(*regexp.Regexp).FindStringSubmatch" {
+						var found *Org
+						okD := true
+						for _, d := range Deref(mo, 0) {
+							if d.K == "call" && d.Name == "(*regexp.Regexp).FindStringSubmatch" {
+								if found != nil && found.V != d.V {
+									okD = false
+								}
+								found = d
+							} else if !(d.K == "const" && d.Name == "nil") {
+								okD = false
+							}
+						}
+						if okD && found != nil {
+							mo = found
+						}
+					}
 					mc, isCall := mo.V.(*ssa.Call)
 					if mo.K != "call" || !isCall || mo.Name != "(*regexp.Regexp).FindStringSubmatch" {
 						return false, "helper indexes a slice that at " + p.InstrPos(ci) + " is not the result of a pattern match (" + trimOrg(mo.String()) + ")"
@@ -618,7 +644,7 @@ func dischargeBounds(p *Prog, r *Resolver, rx map[string]*RegexVar, in ssa.Instr
 					if rv == nil || rv.Tree == nil {
 						return false, "sub-match of a pattern that is not a package-level constant pattern (call at " + p.InstrPos(ci) + ")"
 					}
-					if !nonNilGuard(mc, ci) {
+					if !nonNilGuard(mc, ci) && !(argVal != nil && nonNilGuard(strip(argVal), ci)) {
 						return false, "the match handed to the helper at " + p.InstrPos(ci) + " is not nil-checked (a non-matching line panics)"
 					}
 					io := nr.Of(x.Index)
@@ -675,6 +701,11 @@ func dischargeBounds(p *Prog, r *Resolver, rx map[string]*RegexVar, in ssa.Instr
 		}
 		// (iii) S[len(M[0])+c:]
 		if ok, why := sliceAfterMatch(p, r, x); ok {
+			return true, why
+		} else if why != "" {
+			return false, why
+		}
+		if ok, why := sliceAfterMatchParam(p, x); ok {
 			return true, why
 		} else if why != "" {
 			return false, why
@@ -967,4 +998,124 @@ func fabricated(s Src, slot string, allowedConst map[string]bool) string {
 		return "value of unrecognised origin " + trimOrg(s.A)
 	}
 	return "unrecognised origin"
+}
+
+
+// sliceAfterMatchParam: idiom (iii) in a helper that receives the string and
+// the match text as parameters, S[len(M0)+c:] with c <= 1: decided at every
+// static call site of the helper (M0 is element 0 of a match of S anchored at
+// the start; for c == 1 the call is on the edge len(S) != len(M0)).
+func sliceAfterMatchParam(p *Prog, s *ssa.Slice) (bool, string) {
+	fn := s.Parent()
+	sp, ok := strip(s.X).(*ssa.Parameter)
+	if !ok || sp.Parent() != fn {
+		return false, ""
+	}
+	r0 := NewResolver(p)
+	// low = len(P(m0)) + c, possibly through a local
+	lo := r0.Of(s.Low)
+	var mp *ssa.Parameter
+	var cst int64
+	lenOfParam := func(o *Org) *ssa.Parameter {
+		if o.K != "call" || o.Name != "len" {
+			return nil
+		}
+		cl, ok := o.V.(*ssa.Call)
+		if !ok || len(cl.Call.Args) != 1 {
+			return nil
+		}
+		prm, _ := strip(cl.Call.Args[0]).(*ssa.Parameter)
+		return prm
+	}
+	switch {
+	case lo.K == "binop" && lo.Name == "+" && len(lo.Sub) == 2:
+		if q := lenOfParam(lo.Sub[0]); q != nil {
+			if k, ok := lo.Sub[1].ConstInt(); ok {
+				mp, cst = q, k
+			}
+		} else if q := lenOfParam(lo.Sub[1]); q != nil {
+			if k, ok := lo.Sub[0].ConstInt(); ok {
+				mp, cst = q, k
+			}
+		}
+	default:
+		if q := lenOfParam(lo); q != nil {
+			mp, cst = q, 0
+		}
+	}
+	if mp == nil || mp.Parent() != fn {
+		return false, ""
+	}
+	if cst < 0 || cst > 1 {
+		return false, fmt.Sprintf("offset len(M[0])%+d is not covered by the inequality guard", cst)
+	}
+	idxOf := func(q *ssa.Parameter) int {
+		for i, x := range fn.Params {
+			if x == q {
+				return i
+			}
+		}
+		return -1
+	}
+	si, mi := idxOf(sp), idxOf(mp)
+	sites := staticCallers(p, fn)
+	if len(sites) == 0 || si < 0 || mi < 0 {
+		return false, ""
+	}
+	for _, ci := range sites {
+		args := ci.Common().Args
+		if si >= len(args) || mi >= len(args) {
+			return false, ""
+		}
+		cr := NewResolver(p)
+		sArg, mArg := args[si], args[mi]
+		// mArg = M[0] with M a match call on sArg
+		ld, ok := strip(mArg).(*ssa.UnOp)
+		if !ok || ld.Op != token.MUL {
+			return false, "the text handed to the helper at " + p.InstrPos(ci) + " is not element 0 of a pattern match"
+		}
+		ia, ok := ld.X.(*ssa.IndexAddr)
+		if !ok || !isIntConst(ia.Index) || ia.Index.(*ssa.Const).Int64() != 0 {
+			return false, "the text handed to the helper at " + p.InstrPos(ci) + " is not element 0 of a pattern match"
+		}
+		mc := matchCallOf(ia.X)
+		if mc == nil {
+			return false, "the text handed to the helper at " + p.InstrPos(ci) + " is not element 0 of a pattern match"
+		}
+		if !sameValue(cr.Of(mc.Call.Args[1]), cr.Of(sArg)) {
+			return false, "at " + p.InstrPos(ci) + " the match is of a different string than the one sliced"
+		}
+		if cst == 0 {
+			continue
+		}
+		okGuard := false
+		for _, g := range GuardsOf(ci) {
+			a := atomsOf(g)
+			b, ok := a.V.(*ssa.BinOp)
+			if !ok || (b.Op != token.EQL && b.Op != token.NEQ) {
+				continue
+			}
+			isLenOf := func(v ssa.Value, want *Org) bool {
+				c, ok := v.(*ssa.Call)
+				if !ok {
+					return false
+				}
+				bi, ok := c.Call.Value.(*ssa.Builtin)
+				return ok && bi.Name() == "len" && sameValue(cr.Of(c.Call.Args[0]), want)
+			}
+			so, mo := cr.Of(sArg), cr.Of(mArg)
+			if (isLenOf(b.X, so) && isLenOf(b.Y, mo)) || (isLenOf(b.Y, so) && isLenOf(b.X, mo)) {
+				if (b.Op == token.EQL && !a.Pos) || (b.Op == token.NEQ && a.Pos) {
+					okGuard = true
+				}
+			}
+		}
+		if !okGuard {
+			return false, "the helper is called at " + p.InstrPos(ci) + " without the guard len(S) != len(M[0]): the slice offset can exceed the string"
+		}
+		if !matchAtStart(p, mc) {
+			return false, "the match is not anchored at the start of the string: len(M[0])+1 is not an offset into S"
+		}
+	}
+	return true, fmt.Sprintf("(iii') at each of the %d call sites S[len(M[0])+%d:] with M a start-anchored match of S on the edge len(S) != len(M[0])", len(sites), cst)
 }
